@@ -163,6 +163,69 @@ pub fn install_panic_hook() {
   }));
 }
 
+/// A fatal signal while a case is being evaluated (stack overflow from unbounded recursion in the code
+/// under test, or any other crash that is not a panic) is a violation too: the handler - running on the
+/// alternate signal stack std sets up for every thread - saves the case of the crashing thread, prints the
+/// VIOLATION line and leaves.  (Not async-signal-safe in the letter; the process is lost anyway.)
+pub fn install_crash_handler() {
+  extern "C" fn on_fatal(sig: libc::c_int, _info: *mut libc::siginfo_t, _ctx: *mut libc::c_void) {
+    static REPORTED: AtomicBool = AtomicBool::new(false);
+    if REPORTED.swap(true, Ordering::SeqCst) {
+      unsafe { libc::_exit(1) };
+    }
+    let case = CURRENT_CASE.try_with(|c| c.try_borrow().map(|s| s.clone()).unwrap_or_default()).unwrap_or_default();
+    let prop = CURRENT_PROP.try_lock().map(|p| p.clone()).unwrap_or_default();
+    let dir = VERIF_DIR.try_lock().map(|p| p.clone()).unwrap_or_default();
+    let what = match sig {
+      libc::SIGSEGV => "SIGSEGV (stack overflow or invalid memory access)",
+      libc::SIGBUS => "SIGBUS",
+      libc::SIGILL => "SIGILL",
+      libc::SIGFPE => "SIGFPE",
+      _ => "fatal signal",
+    };
+    let line = if case.is_empty() {
+      format!("HARNESS_ERROR: {what} outside any evaluated case\nINCONCLUSIVE property={prop}: harness error\n")
+    } else {
+      let path = write_replay_raw(&dir, &prop, &case, &format!("process crash: {what}"));
+      format!("crash while evaluating a case: {what}\nVIOLATION property={prop} replay={path}\n")
+    };
+    unsafe {
+      libc::write(1, line.as_ptr() as *const libc::c_void, line.len());
+      libc::_exit(if case.is_empty() { 2 } else { 1 });
+    }
+  }
+  unsafe {
+    let mut sa: libc::sigaction = std::mem::zeroed();
+    sa.sa_sigaction = on_fatal as usize;
+    sa.sa_flags = libc::SA_SIGINFO | libc::SA_ONSTACK;
+    libc::sigemptyset(&mut sa.sa_mask);
+    for sig in [libc::SIGSEGV, libc::SIGBUS, libc::SIGILL, libc::SIGFPE] {
+      libc::sigaction(sig, &sa, std::ptr::null_mut());
+    }
+  }
+}
+
+/// Run `f` on a thread with an ordinary 2 MiB stack (the evaluating threads of this harness have 64 MiB
+/// for their own deep recursion; library code that recurses once per input element must still fit the
+/// stack its users have).  The case being evaluated is made known to the crash handler on that thread.
+pub fn on_small_stack<T: Send>(f: impl FnOnce() -> T + Send) -> T {
+  let case = CURRENT_CASE.with(|c| c.borrow().clone());
+  let r = std::thread::scope(|s| {
+    std::thread::Builder::new()
+      .stack_size(2 << 20)
+      .spawn_scoped(s, move || {
+        CURRENT_CASE.with(|c| *c.borrow_mut() = case);
+        f()
+      })
+      .expect("spawn a small-stack thread")
+      .join()
+  });
+  match r {
+    Ok(v) => v,
+    Err(p) => std::panic::resume_unwind(p),
+  }
+}
+
 fn write_replay_raw(dir: &str, prop: &str, case_json: &str, reason: &str) -> String {
   let d = format!("{dir}/replays/{prop}");
   let _ = std::fs::create_dir_all(&d);
